@@ -277,6 +277,16 @@ func genC13(r *Rng) *Plan {
 	for i := 0; i < n; i++ {
 		h := hosts[r.Intn(len(hosts))]
 		b := r.Pick("b1", "b2")
+		if r.Chance(1, 25) {
+			// provider transition: the deployment moves to another provider slug; sessions of the old one must not be accepted
+			nc := cfg
+			nc.Slug = map[string]string{"okta": "okta-next", "okta-next": "okta"}[cfg.Slug]
+			if nc.Slug == "" {
+				nc.Slug = "okta-next"
+			}
+			cfg = nc
+			p.Steps = append(p.Steps, Step{Op: "restart", Sub: "proxy", NewCfg: &nc})
+		}
 		switch r.Intn(5) {
 		case 0, 1:
 			p.Steps = append(p.Steps, Step{Op: "login", B: b, User: users[r.Intn(len(users))], Host: h, Target: "/"})
